@@ -509,8 +509,9 @@ func createPluginConfigKeyForImage(pluginConfig bufconfig.GeneratePluginConfig) 
 	sort.Strings(pluginConfig.IncludeTypes())
 	sort.Strings(pluginConfig.ExcludeTypes())
 	return pluginConfigKeyForImage{
-		includeTypes: fmt.Sprintf("%v", pluginConfig.IncludeTypes()),
-		excludeTypes: fmt.Sprintf("%v", pluginConfig.ExcludeTypes()),
+		// %q, not %v: [""] and [], or ["a b"] and ["a" "b"], must not share a key.
+		includeTypes: fmt.Sprintf("%q", pluginConfig.IncludeTypes()),
+		excludeTypes: fmt.Sprintf("%q", pluginConfig.ExcludeTypes()),
 		strategy:     Strategy(pluginConfig.Strategy()),
 		remoteHost:   pluginConfig.RemoteHost(),
 	}
